@@ -5,7 +5,7 @@ use vh_common::report::Violations;
 use vh_common::{Report, par};
 use vh_seq::emfx::gen_::*;
 use vh_seq::emfx::layers::{layers, walk};
-use vh_seq::emfx::mutate::neighbourhood;
+use vh_seq::emfx::mutate::{for_each_neighbour, seeds};
 use vh_seq::emfx::reference::*;
 use vh_seq::emfx::*;
 
@@ -114,12 +114,14 @@ fn main() {
     // neighbourhood of a set of base entries, all configurations, validations on and off
     let cfgs = configs(tier);
     let pristine: Vec<Emf> = cfgs.iter().map(|c| c.build()).collect();
-    let nb = neighbourhood(tier, &cfgs);
-    layer_sizes.push(json!({"layer": "W edit neighbourhood (<=2 edits) of valid base entries", "cases": nb.len()}));
-    states.extend(par::for_each_index(nb.len() as u64, 256, St::default, |st, i| {
-        let (ci, entry) = &nb[i as usize];
-        check(st, &cfgs[*ci], &pristine[*ci], entry);
-    }));
+    let sd = seeds(tier, &cfgs);
+    let nb_states = par::for_each_index(sd.len() as u64, 1, St::default, |st, i| {
+        let seed = &sd[i as usize];
+        for_each_neighbour(seed, tier, |entry| check(st, &cfgs[seed.ci], &pristine[seed.ci], entry));
+    });
+    let nb_cases: u64 = nb_states.iter().map(|s| s.cases).sum();
+    layer_sizes.push(json!({"layer": "W edit neighbourhood (<=2 edits) of valid base entries", "cases": nb_cases, "base_entries": sd.len()}));
+    states.extend(nb_states);
     // 3. every Unicode scalar value as a name, a string and a metric name
     let plain = [CfgD::simple(Ctor::NoValidations), CfgD::simple(Ctor::AllValidations)];
     let plain_p: Vec<Emf> = plain.iter().map(|c| c.build()).collect();
